@@ -11,8 +11,9 @@
 //                                                NAME: plain member name (atom); KIND ::= n | c | d | g | r
 //                                                (normal, constant, derived, given_or_derived, reference); DFLT ::= - | VAL;
 //                                                `o` = `override => true`, `f` / `nf` = `final => true` / `false`
-//   TY   ::= int | str | bool | any | (opt TY)
-//   VAL  ::= (i N) | (s xHEX) | (b t|f) | u
+//   TY   ::= int | str | bool | any | float | undef | (opt TY) | (nu TY) | (var TY TY) | (arr TY)
+//                                                Integer String Boolean Any Float Undef Optional[T] NotUndef[T] Variant[A,B] Array[T]
+//   VAL  ::= (i N) | (s xHEX) | (b t|f) | u | (f N) | (a VAL*)          (f N): the Float N/4;  (a …): an Array
 //   EQ   ::= - | (s NAME) | (l NAME*)            `equality` absent / given as a string / given as an array
 //   EIT  ::= - | t | f                           `equality_include_type`
 //   SER  ::= - | (l NAME*)                       `serialization`
@@ -68,10 +69,11 @@ func init() {
 // ---- syntax ----------------------------------------------------------------------------------------------
 
 type val struct {
-	k string // i s b u
-	i int64
-	s string
-	b bool
+	k  string // i s b u f (a Float: i quarters) a (an Array: es)
+	i  int64
+	s  string
+	b  bool
+	es []val
 }
 
 func (v val) sexp() sx.Sexp {
@@ -82,6 +84,14 @@ func (v val) sexp() sx.Sexp {
 		return sx.T("s", sx.Str(v.s))
 	case "b":
 		return sx.T("b", sx.Bool(v.b))
+	case "f":
+		return sx.T("f", sx.Int(v.i))
+	case "a":
+		xs := make([]sx.Sexp, len(v.es))
+		for i, e := range v.es {
+			xs[i] = e.sexp()
+		}
+		return sx.T("a", xs...)
 	}
 	return sx.A("u")
 }
@@ -96,6 +106,14 @@ func (v val) px() px.Value {
 		return types.WrapString(v.s)
 	case "b":
 		return types.WrapBoolean(v.b)
+	case "f":
+		return types.WrapFloat(float64(v.i) / 4)
+	case "a":
+		xs := make([]px.Value, len(v.es))
+		for i, e := range v.es {
+			xs[i] = e.px()
+		}
+		return types.WrapValues(xs)
 	}
 	return px.Undef
 }
@@ -108,6 +126,18 @@ func (v val) text() string {
 		return "'" + v.s + "'" // generator strings are [a-z0-9 ]* only
 	case "b":
 		return strconv.FormatBool(v.b)
+	case "f":
+		t := strconv.FormatFloat(float64(v.i)/4, 'f', -1, 64)
+		if !strings.Contains(t, ".") {
+			t += ".0"
+		}
+		return t
+	case "a":
+		xs := make([]string, len(v.es))
+		for i, e := range v.es {
+			xs[i] = e.text()
+		}
+		return "[" + strings.Join(xs, ", ") + "]"
 	}
 	return "undef"
 }
@@ -127,6 +157,14 @@ func valOf(e sx.Sexp) val {
 		return val{k: "s", s: a[0].MustStr()}
 	case "b":
 		return val{k: "b", b: a[0].MustBool()}
+	case "f":
+		return val{k: "f", i: a[0].MustInt()}
+	case "a":
+		v := val{k: "a", es: []val{}}
+		for _, x := range a {
+			v.es = append(v.es, valOf(x))
+		}
+		return v
 	}
 	panic(fmt.Errorf("bad value %s", e))
 }
@@ -140,6 +178,14 @@ func valOfPx(v px.Value) string {
 		return val{k: "s", s: v.String()}.String()
 	case px.Boolean:
 		return val{k: "b", b: v.Bool()}.String()
+	case px.Float:
+		if q := v.Float() * 4; q == float64(int64(q)) {
+			return val{k: "f", i: int64(q)}.String()
+		}
+	case *types.Array:
+		xs := []string{}
+		v.Each(func(e px.Value) { xs = append(xs, " "+valOfPx(e)) })
+		return "(a" + strings.Join(xs, "") + ")"
 	case *types.Hash:
 		// a hash where a value is expected: the argument of a named construction that fell through to the positional signature
 		// Hash equality does not depend on the order of the entries: printed (and identified by the model) sorted by key
@@ -158,27 +204,34 @@ func valOfPx(v px.Value) string {
 }
 
 type ty struct {
-	k   string // int str bool any opt
-	elt *ty
+	k    string // int str bool any float undef | opt nu (NotUndef) arr (Array): elt | var (Variant): elt, elt2
+	elt  *ty
+	elt2 *ty
 }
 
 func tyOf(e sx.Sexp) *ty {
 	if !e.IsList {
 		switch e.Atom {
-		case "int", "str", "bool", "any":
+		case "int", "str", "bool", "any", "float", "undef":
 			return &ty{k: e.Atom}
 		}
 		panic(fmt.Errorf("bad type %s", e))
 	}
-	if e.Tag() == "opt" && len(e.List) == 2 {
-		return &ty{k: "opt", elt: tyOf(e.List[1])}
+	switch {
+	case (e.Tag() == "opt" || e.Tag() == "nu" || e.Tag() == "arr") && len(e.List) == 2:
+		return &ty{k: e.Tag(), elt: tyOf(e.List[1])}
+	case e.Tag() == "var" && len(e.List) == 3:
+		return &ty{k: "var", elt: tyOf(e.List[1]), elt2: tyOf(e.List[2])}
 	}
 	panic(fmt.Errorf("bad type %s", e))
 }
 
 func (t *ty) sexp() sx.Sexp {
-	if t.k == "opt" {
-		return sx.T("opt", t.elt.sexp())
+	switch t.k {
+	case "opt", "nu", "arr":
+		return sx.T(t.k, t.elt.sexp())
+	case "var":
+		return sx.T("var", t.elt.sexp(), t.elt2.sexp())
 	}
 	return sx.A(t.k)
 }
@@ -193,6 +246,16 @@ func (t *ty) text() string {
 		return "Boolean"
 	case "any":
 		return "Any"
+	case "float":
+		return "Float"
+	case "undef":
+		return "Undef"
+	case "nu":
+		return "NotUndef[" + t.elt.text() + "]"
+	case "arr":
+		return "Array[" + t.elt.text() + "]"
+	case "var":
+		return "Variant[" + t.elt.text() + ", " + t.elt2.text() + "]"
 	}
 	return "Optional[" + t.elt.text() + "]"
 }
@@ -207,6 +270,16 @@ func (t *ty) px() px.Type {
 		return types.DefaultBooleanType()
 	case "any":
 		return types.DefaultAnyType()
+	case "float":
+		return types.DefaultFloatType()
+	case "undef":
+		return types.DefaultUndefType()
+	case "nu":
+		return types.NewNotUndefType(t.elt.px())
+	case "arr":
+		return types.NewArrayType(t.elt.px(), nil)
+	case "var":
+		return types.NewVariantType(t.elt.px(), t.elt2.px())
 	}
 	return types.NewOptionalType(t.elt.px())
 }
@@ -222,22 +295,54 @@ func (t *ty) inst(v val) bool {
 		return v.k == "b"
 	case "any":
 		return true
+	case "float":
+		return v.k == "f"
+	case "undef":
+		return v.k == "u"
+	case "nu":
+		return v.k != "u" && t.elt.inst(v)
+	case "var":
+		return t.elt.inst(v) || t.elt2.inst(v)
+	case "arr":
+		if v.k != "a" {
+			return false
+		}
+		for _, e := range v.es {
+			if !t.elt.inst(e) {
+				return false
+			}
+		}
+		return true
 	}
 	return v.k == "u" || t.elt.inst(v)
 }
 
-// asgSpec: the specification's reading of "every instance of u is an instance of t" on the type alphabet
+// asgSpec: the specification's reading of "every instance of u is an instance of t" on the type alphabet — a SUFFICIENT
+// condition (rule by rule on the two type expressions; where it says no, the specification has no opinion on an override:
+// the definition counts as malformed, outside the quantifier)
 func asgSpec(t, u *ty) bool {
-	switch t.k {
-	case "any":
+	acceptsUndef := func(x *ty) bool { return x.inst(val{k: "u"}) }
+	switch {
+	case t.k == "any":
 		return true
-	case "opt":
-		if u.k == "opt" {
-			return asgSpec(t, u.elt)
-		}
-		return asgSpec(t.elt, u)
+	case u.k == "var":
+		return asgSpec(t, u.elt) && asgSpec(t, u.elt2)
+	case u.k == "opt":
+		return acceptsUndef(t) && asgSpec(t, u.elt)
+	case u.k == "nu" && !acceptsUndef(u.elt):
+		return asgSpec(t, u.elt)
 	}
-	return t.k == u.k
+	switch t.k {
+	case "opt":
+		return u.k == "undef" || asgSpec(t.elt, u)
+	case "nu":
+		return !acceptsUndef(u) && asgSpec(t.elt, u)
+	case "var":
+		return asgSpec(t.elt, u) || asgSpec(t.elt2, u)
+	case "arr":
+		return u.k == "arr" && asgSpec(t.elt, u.elt)
+	}
+	return t.k == u.k && t.elt == nil
 }
 
 type attr struct {
@@ -348,8 +453,12 @@ func defOf(e sx.Sexp) def {
 				t = &ty{k: "str"}
 			case "b":
 				t = &ty{k: "bool"}
+			case "f":
+				t = &ty{k: "float"}
+			case "u":
+				t = &ty{k: "undef"}
 			default:
-				panic(fmt.Errorf("constant %s: the inferred type Undef is not in the alphabet", kv))
+				panic(fmt.Errorf("constant %s: the type inferred for an array is not in the alphabet", kv))
 			}
 			d.consts = append(d.consts, attr{name: nameOf(kv.List[0]), ty: t, kind: "c", dflt: &v})
 		}
@@ -1468,6 +1577,45 @@ func sameShape(s *spec, t1, t2 int) bool {
 	return true
 }
 
+// ---- the type alphabet against pcore ------------------------------------------------------------------------------
+
+// `asg T U` → px.IsAssignable(T, U);  `tinst T V` → px.IsInstance(T, V): the model's `asg` / `inst` on the alphabet of attribute
+// types (both the parsed and the programmatically built type must answer alike: class alphabet-renderings)
+func execTypes(c px.Context, op string, args []sx.Sexp) core.Result {
+	if len(args) != 2 {
+		return core.Result{Out: "bad-op", Pred: "n/a"}
+	}
+	out, pred := "", "ok"
+	if cls := safely(func() {
+		t := tyOf(args[0])
+		if op == "asg" {
+			u := tyOf(args[1])
+			a, b := px.IsAssignable(t.px(), u.px()), px.IsAssignable(c.ParseType(t.text()), c.ParseType(u.text()))
+			out = sx.B(a)
+			if a != b {
+				pred = fmt.Sprintf("FAIL alphabet-renderings IsAssignable(%s, %s) is %v for the built types and %v for the parsed ones", t.text(), u.text(), a, b)
+			} else if asgSpec(t, u) && !a {
+				pred = fmt.Sprintf("FAIL alphabet-assignable %s rejects %s although every instance of the latter is an instance of the former", t.text(), u.text())
+			}
+		} else {
+			v := valOf(args[1])
+			a, b := px.IsInstance(t.px(), v.px()), px.IsInstance(c.ParseType(t.text()), v.px())
+			out = sx.B(a)
+			if a != b {
+				pred = fmt.Sprintf("FAIL alphabet-renderings IsInstance(%s, %s) is %v for the built type and %v for the parsed one", t.text(), v.text(), a, b)
+			} else if a != t.inst(v) {
+				pred = fmt.Sprintf("FAIL alphabet-instance IsInstance(%s, %s) = %v", t.text(), v.text(), a)
+			}
+		}
+	}); cls != "" {
+		if out == "" {
+			return core.Result{Out: "bad-op", Pred: "n/a"}
+		}
+		return core.Result{Out: cls, Pred: "FAIL fault " + op}
+	}
+	return core.Result{Out: out, Pred: pred, NonTrivial: true, Tags: []string{"alphabet:" + op}}
+}
+
 // ---- exec -------------------------------------------------------------------------------------------------------
 
 func exec(c px.Context, op string, args []sx.Sexp) core.Result {
@@ -1482,6 +1630,9 @@ func exec(c px.Context, op string, args []sx.Sexp) core.Result {
 	}
 	if op == "goobj" {
 		return execGoObj(c, args)
+	}
+	if op == "asg" || op == "tinst" {
+		return execTypes(c, op, args)
 	}
 	if op == "ifacex" {
 		return execIfaceX(c, args)
